@@ -117,6 +117,8 @@ def wire_tok(t):
         return [1, 3, t[2][0], t[2][1], t[3] or [], t[4] or [], t[5]]
     if k == 'grp':
         return [1, 4, t[2], t[3], t[4]]
+    if k == 'macro':
+        return [1, 5, [ord(c) for c in t[2]], t[4]]
     raise ValueError(t)
 
 
@@ -134,6 +136,8 @@ def unwire_tok(w):
         return ['cs', 'glue', [w[2], w[3]], w[4] or None, w[5] or None, w[6]]
     if k == 4:
         return ['cs', 'grp', w[2], w[3], w[4]]
+    if k == 5:
+        return ['cs', 'macro', ''.join(chr(c) for c in w[2]), None, w[3]]
     raise ValueError(w)
 
 
@@ -144,6 +148,8 @@ def show_tok(t):
         return '\\' + t[2] + (' ' if t[2][-1:].isalpha() else '')
     if t[1] == 'grp':
         return chr(t[3])
+    if t[1] == 'macro':
+        return '\\%s<=%r> ' % (t[2], t[3])
     v = t[2] if t[1] == 'count' else '%s/%ssp' % tuple(t[2])
     return '\\%s<%s>' % (t[1], v)
 
@@ -160,6 +166,8 @@ def plain_view(t):
         return ('c', 1 if t[2] else 2, t[3])
     if t[1] == 'glue':
         return ('cs', 'glue', tuple(t[2]), tuple(t[3]) if t[3] else None, tuple(t[4]) if t[4] else None)
+    if t[1] == 'macro':
+        return ('cs', 'macro', t[2])
     return ('cs', t[1], tuple(t[2]) if isinstance(t[2], list) else t[2])
 
 
@@ -181,6 +189,7 @@ class Env:
         self.doc = TeXDocument()
         self.tex = TeX(self.doc)
         self.names = {}      # register name -> token description (without ex flag)
+        self.macros = {}     # user macro name -> body
         self.n = 0
 
     def regname(self, kind):
@@ -210,6 +219,10 @@ class Env:
                 # UnrecognizedMacro, whose __eq__ answers True to any string)
                 if name not in self.doc.context.keys():
                     self.doc.context.addGlobal(name, type(str(name), (plasTeX.Command,), {}))
+            elif k == 'macro':
+                name, ex = t[2], t[4]
+                self.macros[name] = t[3]
+                self.doc.context.newcommand(name, 0, t[3])      # a user macro without arguments: \newcommand{\name}{body}
             elif k == 'grp':
                 name = 'bgroup' if t[2] else 'egroup'
                 ex = t[4]
@@ -247,11 +260,15 @@ class Env:
                 return ['cs', 'grp', 0, 125, 1]
             if name in self.names:
                 return self.names[name] + [1]
+            if name in self.macros:
+                return ['cs', 'macro', name, self.macros[name], 1]
             return ['cs', 'inert', name, 1]
         if t.catcode == 0:
             name = str(t)
             if name in self.names:
                 return self.names[name] + [0]
+            if name in self.macros:
+                return ['cs', 'macro', name, self.macros[name], 0]
             return ['cs', 'inert', name, 0]
         s = str(t)
         if len(s) != 1:
@@ -1098,6 +1115,29 @@ def enum_dimen_cases():
                                expect=dict(value=[val.numerator, val.denominator], rest=chs('x')))
 
 
+def macro_follow_cases():
+    """digits directly followed by a user macro: TeX expands it while it scans the number (the Model does not model macro
+    expansion: these cases are judged against the TeX denotation only)"""
+    EM = ['cs', 'macro', 'emptymac', '', 0]
+    TM = ['cs', 'macro', 'sevenmac', '7x', 0]
+    bodies = [('12', 10, '', 'dec'), ("'17", 8, "'", 'oct'), ('"1F', 16, '"', 'hex')]
+    for sg, s in (('', 1), ('- ', -1)):
+        for txt, base, pre, kind in bodies:
+            digs = txt[len(pre):]
+            val = lambda extra='': s * int(digs + extra, base)
+            variants = [
+                (chs(txt) + [list(EM)] + chs('x'), val(), chs('x'), 'empty-then-x'),
+                (chs(txt) + [list(EM)] + chs('}'), val(), chs('}'), 'empty-then-brace'),
+                (chs(txt) + [list(EM)] + chs('7'), val('7'), [], 'empty-then-digit'),
+                (chs(txt) + [list(EM), list(EM)] + [list(RELAX)], val(), [list(RELAX)], 'empty-empty-relax'),
+                (chs(txt + ' ') + [list(EM)] + chs('x'), val(), [list(EM)] + chs('x'), 'blank-then-macro'),
+                (chs(txt) + [list(TM)], val('7'), chs('x'), 'macro-yields-digit'),
+            ]
+            for toks, v, rest, tag in variants:
+                yield dict(kind='num', op='int', toks=chs(sg) + toks, nt=True, tags=['macro-follow', tag, 'int:' + kind],
+                           expect=dict(value=v, rest=rest))
+
+
 RAW_ALPHA = [ch('-'), ch('+'), ch(' '), ch('1'), ch('8'), ch('A'), ch('f'), ch("'"), ch('"'), ch('`'), ch('.'), ch('p'), ch('t'),
              RELAX, count_reg(5), ch('}')]
 
@@ -1507,6 +1547,8 @@ def streams(rng, tier, boost):
     quick = tier == 'quick'
     # 1. exhaustive short literals (Spec-driven)
     for c in enum_int_cases():
+        out.append(('int-exhaustive', c))
+    for c in macro_follow_cases():
         out.append(('int-exhaustive', c))
     for i, c in enumerate(enum_dimen_cases()):
         if quick and c['tags'][-1] == 'enum' and c.get('units', 0) == 0 and i % 3 and boost == 1:
